@@ -13,7 +13,7 @@
 From Coq Require Import List ZArith NArith Bool.
 Import ListNotations.
 From NV Require Import gen.Consts_Conntrack model.Wheel model.Conntrack model.FwReload
-  proofs.Conntrack_proofs proofs.FwReload_proofs.
+  proofs.Conntrack_proofs proofs.FwReload_proofs proofs.Conntrack_cache.
 Open Scope Z_scope.
 
 (* ALL histories of packets, sleeps and reloads, every flow: the verdicts satisfy the history-level specification:
@@ -96,6 +96,33 @@ Proof.
   now apply same_rules_keeps.
 Qed.
 Print Assumptions C19_same_rules_never_cut.
+
+(* With a routine-local conntrack cache a reload does not empty the cache, so a cached flow skips revalidation - but
+   only until the next tick: after any reloads, a packet no rule allows passes only if the table honours its flow under
+   the rules NOW loaded, or honoured a packet of it (under the rules loaded then) within the current cache period. *)
+Theorem C19_cache_staleness_bounded : forall allowed addr_ok rs v0 tcp udp def t0 P h p d f,
+  let cn0 := cboot (boot rs v0 tcp udp def t0) P in
+  let cn := cexec allowed addr_ok h cn0 in
+  fst (cstep allowed addr_ok (EPkt p d f) cn) = Some true ->
+  allowed (f_rules (n_fw (cn_node cn))) p d f = false ->
+  table_live allowed addr_ok p f (cn_node cn) \/
+  exists h1 p' d' h2, h = h1 ++ EPkt p' d' f :: h2 /\
+    table_live allowed addr_ok p' f (cn_node (cexec allowed addr_ok h1 cn0)) /\
+    no_tick P t0 (n_now (cn_node (cexec allowed addr_ok h1 cn0))) h2 = true.
+Proof. intros. now apply (cache_pass_justified allowed addr_ok p d f h cn0). Qed.
+Print Assumptions C19_cache_staleness_bounded.
+
+(* all histories with reloads and a cache: the specification with a cache, as the property states it (no reset at the
+   version wrap), on histories without a wrap *)
+Theorem C19_cache_history_spec_as_stated : forall allowed addr_ok rs v0 tcp udp def t0 P h f,
+  (v0 < 65536)%N -> no_wrap v0 h = true ->
+  cflow_ok allowed addr_ok false f (cspec_boot (spec_boot rs v0 tcp udp def t0) P) h
+           (cverdicts allowed addr_ok h (cboot (boot rs v0 tcp udp def t0) P)) = true.
+Proof.
+  intros. rewrite cflow_ok_no_wrap by assumption.
+  apply cache_model_meets_spec; [now apply vinv_boot|apply CR_boot, Rf_boot].
+Qed.
+Print Assumptions C19_cache_history_spec_as_stated.
 
 (* The wrap: the reload that takes rulesVersion from 65535 to 0 leaves an empty conntrack. *)
 Theorem C19_wrap_resets : forall rs tcp udp def n,
